@@ -17,7 +17,7 @@ std::string num(double v) {
 
 int CvSpec::ngroups() const {
   if (kind == "angle") return 3;
-  if (kind == "dihedral") return 4;
+  if (kind == "dihedral" || kind == "combo") return 4;
   if (kind == "gyration" || kind == "rmsd" || kind == "eigenvector" || kind == "orientation" || kind == "selfCoordNum" ||
       kind == "orientationAngle" || kind == "inertia" || kind == "spinAngle" || kind == "tilt")
     return 1;
@@ -27,6 +27,7 @@ int CvSpec::ngroups() const {
 double CvSpec::eval(TrajModel const &m, long step) const {
   const double r2d = 180.0 / 3.14159265358979323846;
   if (kind == "distance") return (m.com(groups[1], step) - m.com(groups[0], step)).norm();
+  if (kind == "combo") return coeff0 * (m.com(groups[1], step) - m.com(groups[0], step)).norm() + coeff1 * (m.com(groups[3], step) - m.com(groups[2], step)).norm();
   if (kind == "distanceZ") return (m.com(groups[0], step) - m.com(groups[1], step)).z;
   if (kind == "distanceXY") { V3 d = m.com(groups[0], step) - m.com(groups[1], step); return std::sqrt(d.x * d.x + d.y * d.y); }
   if (kind == "angle") {
@@ -93,6 +94,12 @@ std::string CvSpec::config() const {
   if (has_bounds) s += "  lowerBoundary " + num(lower) + "\n  upperBoundary " + num(upper) + "\n";
   if (expand) s += "  expandBoundaries on\n";
   s += extra;
+  if (kind == "combo") {
+    // two distance components with coefficients
+    for (int c = 0; c < 2; c++)
+      s += "  distance {\n    name c" + std::to_string(c) + "\n    componentCoeff " + num(c ? coeff1 : coeff0) + "\n" + group_block("group1", groups[(size_t)(2 * c)]) + group_block("group2", groups[(size_t)(2 * c + 1)]) + "  }\n";
+    return s + "}\n";
+  }
   s += "  " + kind + " {\n";
   s += comp_extra;
   if (kind == "distanceZ" || kind == "distanceXY") {
